@@ -204,6 +204,12 @@ def handle (prop op : String) (args : List Sexp) (impl : Sexp) : Reply :=
      | .E e => structural (encExpr (.not e)) (notOk (.E e) (decFn impl))
      | .T t => structural (encTable t.not) (notOk (.T t) (decFn impl))
      | .B b => ⟨sameBdd impl b.not, encBdd b.not, impl != sPanic && notOk (.B b) (decFn impl) && bddWireOk impl, "spec"⟩)
+  | "limit", [n] =>
+    -- E -> B of a conjunction of n distinct literals: `ok<inputs>`, `err` or `panic`
+    let k := decNat n
+    let m := if k > maxBddVars then atom "err"
+      else if k ≥ libBddPanicsFrom then atom "panic" else atom s!"ok{k}"
+    ⟨m == impl, m, impl == atom "err" || impl == atom s!"ok{k}", "conversion-limit"⟩
   | "forms", _ => structural (encBool true) (decBool impl) "operator-forms-differ"
   -- C04 ---------------------------------------------------------------------------------------
   | "equiv", [a, b] =>
